@@ -5,7 +5,7 @@ from hypothesis import strategies as st
 
 from .. import gen, model
 from ..core import SKIP, Sub
-from ..util import arr, compare, flags
+from ..util import carr, arr, compare, flags
 
 ID = "C14"
 RULE = ("tracks n=0..20; lon/lat drawn on, one grid step beside and far from the box edges plus free values (lon to +-540 / "
@@ -105,7 +105,7 @@ def check_loc(case, rec):
     if rm is not None:
         kw["range_max"] = rm
     site = "qartod.location_test"
-    got = flags(rec, site, rec.call(site, _loc(), arr(lon), arr(lat), **kw), n)
+    got = flags(rec, site, rec.call(site, _loc(), carr(case, lon), carr(case, lat), **kw), n)
     if got is SKIP:
         return
     compare(rec, site, got, allowed)
@@ -139,7 +139,7 @@ def check_reject(case, rec):
 
 
 SUBS = [
-    Sub("location", loc_case, check_loc, quick=3000, thorough=60000),
+    Sub("location", lambda tier: gen.with_carrier(loc_case(tier)), check_loc, quick=3000, thorough=60000),
     Sub("location_reject", reject_case, check_reject, quick=300, thorough=3000, quick_shards=1),
 ]
 REQUIRED_CLASSES = ["location:on_box_edge", "location:suspect_hop_at_fail_point", "location:hop_next_to_partial",
